@@ -18,7 +18,7 @@ from vlib import Run, zlit, coq_list, coq_bool, coq_string, coq_opt
 import translate_splits
 
 warnings.simplefilter("ignore")
-IMPORTS = "From Coq Require Import QArith.\nFrom V Require Import Model.Splits Model.SplitsCal Model.SplitsRun."
+IMPORTS = "From Coq Require Import QArith PrimFloat.\nFrom V Require Import Model.Splits Model.SplitsCal Model.SplitsRun Model.SelCrit Model.SelCritF."
 
 MONTHS = ["january", "february", "march", "april", "may", "june", "july", "august", "september", "october",
           "november", "december"]
@@ -631,6 +631,9 @@ def fit_worker(job):
             recomputed.append(None)
     res["criteria"] = crit
     res["recomputed"] = recomputed
+    res["crit_type"] = str(getattr(ss.criteria, "value", ss.criteria)).lower()
+    res["c0"], res["d0"] = float(ss.penalty_multiplier), float(ss.penalty_power)
+    res["components"] = {c: [float(fc.N), float(fc.TSS), float(fc.wSSE)] for c, fc in m.fit_components.items()}
     dm = m.df_meter
     res["dates"] = [[ts.year, ts.month, ts.day] for ts in dm.index]
     res["season_map"] = [m.settings.season._num_dict[i] for i in range(1, 13)]
@@ -677,7 +680,11 @@ def launch_fits(run, only=None):
         if k >= 4 and k % 5 == 0:
             settings = {"developer_mode": True, "silent_developer_mode": True,
                         "split_selection": {"allow_separate_shoulder": False, "allow_separate_weekday_weekend": k % 10 == 0}}
+        if k >= 4 and k % 7 == 3:
+            settings = {"developer_mode": True, "silent_developer_mode": True,
+                        "split_selection": {"criteria": ["aic", "aicc", "caic", "sabic", "fpe", "rmse_adj", "r_squared_adj"][(k // 7) % 7]}}
         jobs.append((base + k, kind, settings))
+    jobs.append((base + 400, "season", {"developer_mode": True, "silent_developer_mode": True, "split_selection": {"criteria": "caic"}}))
     # maps with names outside the hard-wired ones, end to end and without developer mode (C13-F1, F2, F3)
     foreign = [("plain", {"season": {"july": "monsoon", "options": ["summer", "shoulder", "winter", "monsoon"]}}),
                ("wdwe", {"weekday_weekend": {"friday": "holiday", "options": ["weekday", "weekend", "holiday"]}}),
@@ -695,7 +702,7 @@ def stream_fits(run, info, only=None, handle=None):
     ex, futures = handle if handle is not None else launch_fits(run, only)
     results = [f.result() for f in futures]
     ex.shutdown()
-    trim_terms, route_terms, best_terms = [], [], []
+    trim_terms, route_terms, best_terms, crit_terms = [], [], [], []
     for res in results:
         case = {"dataset": {"seed": res["seed"], "kind": res["kind"], "generator": "c13.fit_dataset"}, "settings": res["settings"]}
         run.count(("fit", res["seed"], res["kind"], json.dumps(res["settings"], sort_keys=True)), nontrivial=True)
@@ -794,13 +801,94 @@ def stream_fits(run, info, only=None, handle=None):
             coq_flags(res["flags"]), "None" if res["gauss"] is None else "Some " + coq_flags(res["gauss"]),
             coq_smap(res["season_map"]), coq_wmap(res["week_map"]), coq_hist(histogram(dates)),
             coq_list([coq_string(s) for s in combos])), case))
+        if res.get("crit_type") in CRIT_TYPES and all(c in res["components"] for combo in combos for c in combo.split("__")) \
+                and UNSPLIT in res["components"]:
+            base = coq_list([coq_fit(res["components"][UNSPLIT])])
+            for combo, cval in table:
+                crit_terms.append(("(%s, %s, %s, %s, %s, %s)" % (
+                    CRIT_TYPES[res["crit_type"]], vlib.fhex(res["c0"]), vlib.fhex(res["d0"]), base,
+                    coq_list([coq_fit(res["components"][c]) for c in combo.split("__")]), vlib.fhex(cval)),
+                    dict(case, combination=combo, criterion=repr(cval))))
+            run.dist("fit: criterion type", res["crit_type"])
+        else:
+            run.corr_failures.append({"stream": "fit_crit", "case": case, "impl": "criterion type %r / components %r" % (
+                res.get("crit_type"), sorted(res.get("components", {}))[:3]), "model": "not representable in Model/SelCrit.v"})
         best_terms.append(("(%s, %s)" % (coq_list(["(%s, %s)" % (coq_string(a), xr(b)) for a, b in table]),
                                         coq_opt(chosen, coq_string)), case))
         run.dist("fit: candidates", len(combos))
         run.dist("fit: selected", chosen)
         run.sample({"stream": "fit", "dataset": case["dataset"], "n_candidates": len(combos), "selected": chosen,
                     "criterion": dict(table).get(chosen), "ellipsoid_filter": res["gauss"]})
-    return trim_terms, route_terms, best_terms
+    return trim_terms, route_terms, best_terms, crit_terms
+
+
+# ------------------------------------------------------------------ stream F: the selection criterion
+
+CRIT_TYPES = {"rmse": "C_RMSE", "rmse_adj": "C_RMSE_ADJ", "r_squared": "C_R2", "r_squared_adj": "C_R2_ADJ", "fpe": "C_FPE",
+              "aic": "C_AIC", "aicc": "C_AICC", "caic": "C_CAIC", "bic": "C_BIC", "sabic": "C_SABIC"}
+
+
+def coq_fit(nts):
+    return "(mk_fit %s %s %s)" % tuple(vlib.fhex(x) for x in nts)
+
+
+def stream_criterion(run):
+    """the real selection_criteria() on random and edge inputs (called with the numpy scalar types the real caller passes),
+    and np.log / np.sqrt / ** on their own against the float functions of Model/SelCritF.v"""
+    from opendsm.eemeter.models.daily.utilities import selection_criteria as sc_mod
+    from opendsm.eemeter.models.daily.utilities.settings import ModelSelectionCriteria
+    rng = stream_rng(run, "criterion")
+    coded = sorted(m.value for m in ModelSelectionCriteria)
+    if coded != sorted(CRIT_TYPES):
+        run.corr_failures.append({"stream": "crit", "case": {"criteria": coded}, "impl": "ModelSelectionCriteria = %r" % coded,
+                                  "model": "Model/SelCrit.v knows %r" % sorted(CRIT_TYPES)})
+    prim_terms, prim_meta, terms, meta = [], [], [], []
+    n_prim = run.n(300, 3000)
+    with np.errstate(all="ignore"):
+        for k in range(n_prim):
+            which = k % 3
+            if which == 0:
+                x = rng.choice([1.0, 2.0, 0.5, 2 * math.pi, 365.0, 1e-300, 5e-324, 1e300, rng.uniform(0, 3), 10 ** rng.uniform(-12, 12)])
+                y, exp = 0.0, float(np.log(np.float64(x)))
+            elif which == 1:
+                x = rng.choice([0.0, 1.0, 2.0, -1.0, rng.uniform(0, 5), 10 ** rng.uniform(-12, 12)])
+                y, exp = 0.0, float(np.sqrt(np.float64(x)))
+            else:
+                x = rng.choice([0.0, 1.0, 5.9, rng.uniform(0, 15), rng.uniform(-2, 0), float(rng.randrange(0, 50))])
+                y = rng.choice([0.0, 1.0, 2.0, 2.061, rng.uniform(1, 4)])
+                exp = float(np.float64(x) ** y)
+            prim_terms.append("(%d%%nat, %s, %s, %s)" % (which, vlib.fhex(x), vlib.fhex(y), vlib.fhex(exp)))
+            prim_meta.append({"fn": ["np.log", "np.sqrt", "**"][which], "x": repr(x), "y": repr(y), "value": repr(exp)})
+            run.count(("prim", which, repr(x), repr(y)), nontrivial=True)
+        n = run.n(1500, 30000)
+        for k in range(n):
+            ty = coded[k % len(coded)] if coded else "bic"
+            N = rng.choice([1, 2, 3, 5, 21, 22, 23, 30, 90, 365, 730, rng.randrange(1, 2000), 100000])
+            K = rng.choice([0, 1, 2, 3, 6, max(N - 2, 0), max(N - 1, 0), N, N + 3, rng.randrange(1, 8)])
+            loss = rng.choice([0.0, 1.0, 1e-12, -0.1, rng.uniform(0.05, 1.5), rng.uniform(0.5, 1.0), 10 ** rng.uniform(-6, 3)])
+            tss = rng.choice([0.0, 1e-12, 100.0, rng.uniform(1, 1e6)])
+            c0 = rng.choice([0.0, 0.24, 1.0, rng.uniform(0, 4)])
+            d0 = rng.choice([1.0, 2.0, 2.061, rng.uniform(1, 3.5)])
+            case = {"criteria": ty, "loss": repr(loss), "TSS": repr(tss), "N": N, "num_coeffs": K, "penalty_multiplier": repr(c0),
+                    "penalty_power": repr(d0)}
+            try:
+                val = float(sc_mod.selection_criteria(np.float64(loss), np.float64(tss), np.int64(N), int(K), ty, c0, d0))
+            except Exception as e:  # noqa
+                run.corr_failures.append({"stream": "crit", "case": case, "impl": "raised %s: %s" % (type(e).__name__, e),
+                                          "model": "total"})
+                continue
+            edge = loss <= 0 or tss == 0 or K >= N - 1 or N < 22
+            run.count(("crit", vlib.sha(case)), nontrivial=True)
+            run.dist("criterion: input class", "edge (loss<=0 / TSS=0 / K>=N-1 / N<22)" if edge else "regular")
+            run.dist("criterion: value class", "nan" if val != val else "-inf" if val == -math.inf else "+inf" if val == math.inf else "finite")
+            if ty not in CRIT_TYPES:
+                continue
+            terms.append("(%s, %s, %s, %s, %s, %s, %s, %s)" % (CRIT_TYPES[ty], vlib.fhex(c0), vlib.fhex(d0), vlib.fhex(loss),
+                                                            vlib.fhex(tss), vlib.fhex(float(N)), vlib.fhex(float(K)), vlib.fhex(val)))
+            meta.append(dict(case, value=repr(val)))
+            if k in (8, 108):
+                run.sample({"stream": "crit", "case": case, "value": repr(val)})
+    return prim_terms, prim_meta, terms, meta
 
 
 # ------------------------------------------------------------------ stream E: the calendar (date -> month, weekday)
@@ -865,7 +953,8 @@ def check_generated(run, info):
 
 CANDS_PRELUDE = "Definition cands : list split := Eval vm_compute in (candidates gen_opts).\n"
 CASE_TYPE = {"(check_trim_with cands)": "trim_case", "check_route_both": "route_case", "check_trim": "trim_case", "check_route": "route_case", "check_route_parsed": "route_case",
-             "check_best": "best_case", "check_calendar": "list month_run"}
+             "check_best": "best_case", "check_calendar": "list month_run",
+             "check_prim": "prim_case", "check_crit": "crit_case", "check_fit_crit": "fit_crit_case"}
 
 
 def run_cases(run, stream, terms, metas, check_fn, prelude="", shard=300):
@@ -891,7 +980,10 @@ def main():
         "the ellipsoid outcome as oracle input; route: predict()['model_split'] of DailyModel.from_dict documents for every "
         "generated split x 8 maps over all 731 dates of 2023-2024 (+ two non-partition documents); best: the real "
         "_best_combination on synthetic criteria tables (random / ties / NaN / +-inf); fit: real fits on synthetic meters "
-        "(+ three with season/weekday names outside the hard-wired ones, end to end); calendar: every day 1970-2100. "
+        "(+ three with season/weekday names outside the hard-wired ones, end to end; + non-default criteria); calendar: every day "
+        "1970-2100; criterion: the real selection_criteria() for all ten criteria on random and edge inputs (N from 1, "
+        "num_coeffs >= N-1, loss <= 0, TSS = 0, penalty multiplier 0), np.log / np.sqrt / ** on their own, and every "
+        "criterion value recorded on the real fits recomputed by the model from the components' N / TSS / wSSE. "
         "distinct = (stream, split, maps, dates, flags) resp. table hash; non-trivial = more than one component / more than 3 days / "
         "a table with at least two entries and one number")
     run.assumptions += [
@@ -901,8 +993,14 @@ def main():
         "C13-F1, F2, F3; proposed repair /var/tmp/proposed-fixes/C13-1.diff refuses such names at construction, which this "
         "check accepts as 'nothing to route')",
         "the Gaussian (ellipsoid) reduction is an oracle: its four booleans are inputs of the model",
-        "the selection criterion is a number computed by selection_criteria(); the theorem about the choice holds for any "
-        "criterion values (exact binary64 values as extended rationals); the formula itself is only recomputed in Python",
+        "the selection criterion: selection_criteria() / _combination_selection_criteria() are modelled in Model/SelCrit.v over the "
+        "numeric dictionary; theorems at the real-number instance (stdlib ln, sqrt, Rpower; Reals axioms listed under "
+        "trusted_base), execution at PrimFloat with own ln / pow = exp(y ln x) (Model/SelCritF.v, not bit-exact with libm: "
+        "compared within 1e-9 relative); no rounding-error theorem links the two instances; the model is for N >= 1 and does "
+        "not mirror integer exponents other than 1, 2 on a negative base; selection_criteria is called with the numpy scalar "
+        "types the real caller passes (np.float64 loss/TSS, np.int64 N, int num_coeffs)",
+        "the theorem about the choice (first strict minimum, NaN never chosen) holds for any criterion values (exact binary64 "
+        "values as extended rationals) and, composed, for the coded criterion over the reals",
         "routing depends on a date only through (month, ISO weekday) of its local civil date: the route stream observes "
         "that all dates of one (month, weekday) cell are routed alike over 2023-2024; the calendar stream compares pandas' "
         "index.month / dayofweek+1 with CPython and with Model/SplitsCal.v for every day 1970-2100 (one time zone); the "
@@ -924,7 +1022,7 @@ def main():
                                                   "combo_days": info["combo_days"]}})
         check_generated(run, info)
         run.log("translator done, %d candidate splits" % len(info["all_splits"]))
-        run.check_proofs("Properties/C13.v", ["Proofs/SplitsProofs.v"], generated=["Generated/SplitsGen.v"])
+        run.check_proofs("Properties/C13.v", ["Proofs/SplitsProofs.v", "Proofs/SelCritProofs.v"], generated=["Generated/SplitsGen.v"])
         run.cov["exhaustive"] = False     # the finite parts below are enumerated completely; fits / criteria tables / date sets are sampled
         run.cov["exhaustive_over"] = [
             "all %d regenerated candidate splits (exact cover: vm_compute theorem + Python oracle)" % len(info["all_splits"]),
@@ -932,7 +1030,7 @@ def main():
             "all 731 dates of 2023 and 2024 for every generated split x every map (routing)",
             "every day 1970-01-01 .. 2100-12-31 (calendar: pandas vs CPython vs Model/SplitsCal.v)",
             "in Coq: all pairwise-consistent assignments of blocks to the six cells (completeness of the candidate list)"]
-    ok_models = info is not None and run.ensure_models(["Model/SplitsRun.v", "Model/SplitsCal.v", "Model/CasesLib.v"])
+    ok_models = info is not None and run.ensure_models(["Model/SplitsRun.v", "Model/SplitsCal.v", "Model/SelCritF.v", "Model/CasesLib.v"])
     run.log("theorems re-checked: %s" % run.proof_ok)
     if info is not None:
         from opendsm.eemeter.models.daily.model import DailyModel
@@ -950,6 +1048,8 @@ def main():
             run.log("best stream done: %d cases" % len(b_terms))
             c_terms, c_meta = stream_calendar(run)
             run.log("calendar stream done: %d cases" % len(c_terms))
+            p_terms, p_meta, k_terms, k_meta = stream_criterion(run)
+            run.log("criterion stream done: %d + %d cases" % (len(p_terms), len(k_terms)))
             fits = stream_fits(run, info, handle=handle)
             run.log("fits done: %d" % len(fits[0]))
             t_terms += [t for t, _ in fits[0]]; t_meta += [c for _, c in fits[0]]
@@ -963,6 +1063,9 @@ def main():
                 run_cases(run, "route", r_terms, r_meta, "check_route_both", shard=60)
                 run_cases(run, "best", b_terms, b_meta, "check_best", shard=250)
                 run_cases(run, "calendar", c_terms, c_meta, "check_calendar", shard=4)
+                run_cases(run, "crit_prim", p_terms, p_meta, "check_prim", shard=400)
+                run_cases(run, "crit", k_terms, k_meta, "check_crit", shard=300)
+                run_cases(run, "fit_crit", [t for t, _ in fits[3]], [c for _, c in fits[3]], "check_fit_crit", shard=100)
     run.finish()
 
 
@@ -976,7 +1079,8 @@ def replay(run, info, DailyModel, DailyReportingData, ellipsoid_split_filter):
     if gen == "c13.generated" or rep.get("kind") != "concrete":
         return                                   # the regenerated list / the theorems were re-checked above
     if gen == "c13.fit":
-        tt, rr, bb = stream_fits(run, info, only=case)
+        tt, rr, bb, kk = stream_fits(run, info, only=case)
+        run_cases(run, "fit_crit", [t for t, _ in kk], [c for _, c in kk], "check_fit_crit", shard=100)
         run_cases(run, "trim", [t for t, _ in tt], [c for _, c in tt], "check_trim", shard=150)
         run_cases(run, "route", [t for t, _ in rr], [c for _, c in rr], "check_route", shard=60)
         run_cases(run, "best", [t for t, _ in bb], [c for _, c in bb], "check_best", shard=250)
